@@ -509,3 +509,42 @@ Proof.
     unfold count_invokes. induction (methods d); simpl; auto.
   - destruct (find_method _ _); reflexivity.
 Qed.
+
+(* ---------- kept <M>Calls() results are values ---------- *)
+Lemma tstep_kept_other fuel d ts t id :
+  keeps_id id t = false -> snd (fst (fst (tstep fuel d ts t))) id = snd ts id.
+Proof.
+  destruct t as [o|id' m|id']; simpl; intros H.
+  - destruct (step fuel d (fst ts) o) as [[st' x] ev]. reflexivity.
+  - destruct (step fuel d (fst ts) (Calls m)) as [[st' x] ev]. simpl.
+    destruct x; try reflexivity. cbv beta. rewrite (Nat.eqb_sym id id'), H. reflexivity.
+  - reflexivity.
+Qed.
+
+Lemma tfinal_kept fuel d ts l id :
+  forallb (fun t => negb (keeps_id id t)) l = true -> snd (tfinal fuel d ts l) id = snd ts id.
+Proof.
+  revert ts; induction l as [|t r IH]; intros ts H; simpl; [reflexivity|].
+  simpl in H. apply andb_true_iff in H as [Ht Hr]. apply negb_true_iff in Ht.
+  rewrite IH by exact Hr. now apply tstep_kept_other.
+Qed.
+
+(* whatever happens afterwards - calls, nested calls, resets, function changes, other kept results - looking
+   at a kept result again gives exactly the records <M>Calls() returned when it was kept *)
+Lemma snapshots_are_values fuel d ts id m l rest :
+  snd (fst (tstep fuel d ts (TKeep id m))) = ORecords l ->
+  forallb (fun t => negb (keeps_id id t)) rest = true ->
+  let ts1 := fst (fst (tstep fuel d ts (TKeep id m))) in
+  tstep fuel d (tfinal fuel d ts1 rest) (TRecheck id) = (tfinal fuel d ts1 rest, ORecords l, []).
+Proof.
+  intros Hk Hr ts1. simpl. rewrite (tfinal_kept fuel d ts1 rest id Hr). unfold ts1. clear ts1.
+  simpl in *. destruct (step fuel d (fst ts) (Calls m)) as [[st' x] ev]. simpl in *. subst x. simpl.
+  now rewrite Nat.eqb_refl.
+Qed.
+
+(* and what was kept is the log of that moment *)
+Lemma keep_returns_log fuel d ts id m s :
+  find_method (methods d) m = Some s ->
+  tstep fuel d ts (TKeep id m) =
+  ((fst ts, fun i => if Nat.eqb i id then Some (log_of (fst ts) m) else snd ts i), ORecords (log_of (fst ts) m), []).
+Proof. intros H. simpl. unfold do_calls. rewrite H. reflexivity. Qed.
